@@ -208,7 +208,7 @@ def run(ctx):
     py_cap = ctx.scale(5000, 20000)
     coq_cap = ctx.scale(150, 250)
     model_cap = ctx.scale(900, 1500)
-    call_cap = ctx.scale(16000, 30000)
+    call_cap = ctx.scale(8000, 20000)
     omen_gen.count_fill_calls()
     dist = Counter()
     vio, cases, samples = [], [], []
